@@ -1,6 +1,7 @@
 package main
 
 import (
+	"deps.dev/util/resolve"
 	"deps.dev/util/resolve/dep"
 	"deps.dev/util/resolve/schema"
 	"deps.dev/util/resolve/version"
@@ -168,6 +169,46 @@ func init() {
 	register("dep_string", func(a sx.V) sx.V {
 		t := buildDep(a)
 		return sx.B(t.String())
+	})
+	// via_schema: (which text): the same texts through the entry points the schema syntax is used by:
+	// 0 = dependency type on an edge of schema.ParseResolve, 1 = dependency type on an import of schema.New,
+	// 2 = version attributes on a version line of schema.New.  -> ("ok" dump) | ("err") | ("missing")
+	register("via_schema", func(a sx.V) sx.V {
+		which, text := a.Nth(0).Int(), a.Nth(1).Str()
+		switch which {
+		case 0:
+			g, err := schema.ParseResolve("a 1.0.0\n\t"+text+"|b@^1 1.0.0\n", resolve.NPM)
+			if err != nil {
+				return sx.L(sx.Sym("err"))
+			}
+			if len(g.Edges) != 1 {
+				return sx.L(sx.Sym("missing"))
+			}
+			t := g.Edges[0].Type
+			return sx.L(sx.Sym("ok"), dumpDep(&t))
+		case 1:
+			sc, err := schema.New("a\n\t1.0.0\n\t\t"+text+"|b@^1\nb\n\t1.0.0\n", resolve.NPM)
+			if err != nil {
+				return sx.L(sx.Sym("err"))
+			}
+			pa := sc.Package("a")
+			if pa == nil || len(pa.Versions) != 1 || len(pa.Versions[0].Requirements) != 1 {
+				return sx.L(sx.Sym("missing"))
+			}
+			r := pa.Versions[0].Requirements[0]
+			t := r.Type
+			return sx.L(sx.Sym("ok"), dumpDep(&t), sx.B(r.Name))
+		default:
+			sc, err := schema.New("a\n\t"+text+"|1.0.0\n", resolve.NPM)
+			if err != nil {
+				return sx.L(sx.Sym("err"))
+			}
+			pa := sc.Package("a")
+			if pa == nil || len(pa.Versions) != 1 {
+				return sx.L(sx.Sym("missing"))
+			}
+			return sx.L(sx.Sym("ok"), dumpVer(pa.Versions[0].Attr), sx.B(pa.Versions[0].Version))
+		}
 	})
 	// attr_equal: (flavor pairsA pairsB) -> (Equal(a,b) Equal(b,a) Compare-or-0 dumpA dumpB): equality is observed
 	// through every exported entry point, in both directions
